@@ -369,6 +369,28 @@ def is_proj(t, leaf):
     return bool(fp) and fp[0] == leaf
 
 
+def header_serde_shape(ctx, prog):
+    """The JOSE header types are read member by member by serde's derived routines. A custom per-field deserialiser (`deserialize_with`
+    / `with`) shows up in the MIR as a helper `...::visit_map::<impl>::deserialize` nested in the derive of a type declared in a header
+    file; none may exist: the policy is enforced on the *deserialised* header, so a lenient reader (e.g. `"b64": true` read as absent)
+    changes which tokens the fail-closed rules see."""
+    from replay import run_replay
+    name = 'JwsHeader+JwtHeader/members-read-by-the-derived-deserialiser'
+    helpers = [g.name for g in prog.funcs if re.search(r'(jws|jwt)/header\.rs[^>]*>::deserialize::.*visit_(map|seq)::<impl at [^>]*>::deserialize$', g.name)]
+    derives = [g.name for g in prog.funcs if re.search(r'<impl at [^>]*(jws|jwt)/header\.rs[^>]*>::deserialize$', g.name)]
+    if not derives:
+        ctx.add(Ob(name, 'M', INCONCLUSIVE, detail='no derived Deserialize found for the header types'))
+        return
+    if not helpers:
+        ctx.add(Ob(name, 'M', HELD, queries=len(derives), sample='%d derived Deserialize impls in the header files, no per-field deserialiser helper' % len(derives)))
+        return
+    rep = {'scenario': 'jws_policy'}
+    res = run_replay(rep)
+    ctx.add(Ob(name, 'M', VIOLATED if res.get('reproduced') else INCONCLUSIVE,
+               detail='custom per-field deserialiser in a header type (%s); native: %s' % (helpers[0][-120:], res.get('detail', '')[:300]), replay=rep,
+               cex={'path': helpers[0][-160:]}))
+
+
 def main(ctx):
     prog, info = load(CRATES)
     ctx.extra['mir'] = info
@@ -380,3 +402,4 @@ def main(ctx):
     import c01
     guarded(ctx, 'alg at verification', 'M', lambda: c01.run(ctx, prog, only=r'^verify/|^JwsValidationItem::alg/'))
     guarded(ctx, 'validate_crit / has', 'M', lambda: crit_audit(ctx, prog))
+    guarded(ctx, 'header serde shape', 'M', lambda: header_serde_shape(ctx, prog))
